@@ -189,5 +189,12 @@ def r3(cx):
     if len(err) != 1: raise AnchorMissing("enum Error in varlink_parser")
     attrs = " ".join(a for v in err[0]["variants"] for a in v["attrs"])
     okd = "{marker:>column$}" in attrs and 'marker = "^"' in attrs.replace("  ", " ") and "{line}" in attrs
+    if not okd and "#[error" not in attrs.replace(" ", ""):
+        # a hand-written Display: one write! for the parse variant that pads a marker to the column with a width argument
+        from vlib.astfacts import tt_str
+        for f in cx.ast.file("varlink_parser/src/lib.rs")["_fns"]:
+            if f.name == "fmt" and "Display" in (f.trait or "") and f.self_ty.replace(" ", "") == "Error":
+                txt = " ".join(tt_str(m["tokens"]) for m in f.macros() if m["name"] in ("write", "writeln")).replace(" ", "")
+                if re.search(r"\{\w*:>\w+\$\}", txt) and ("{line}" in txt or "line" in txt): okd = True
     cx.check(okd, "C12.R3", "varlink_parser:Error:display-format", "varlink_parser/src/lib.rs:%d" % err[0]["line"],
              "the parse error is not rendered as line + caret padded to the column (format: %s)" % attrs[:160], note_ok="\"{line}\\n{marker:>column$}\" — a width never panics")
